@@ -226,59 +226,109 @@ def _static_compare(val, other, op, fold):
     return _UNDECIDED
 
 
+def _between_conds(cfg, defs, name, st, node):
+    """Conditions that hold at ``node`` because definition ``st`` of local ``name`` is the current one there: the
+    branches every way from the definition to ``node`` takes (no other definition of the local in between), last
+    evaluated with that outcome, nothing re-binding what the test reads afterwards.  (``x = f(); if bad(x): x = None`` ...
+    at a point where x is known to be the f() value, ``bad(x)`` was false.)"""
+    from ..cfg import expand_conds
+    ds, clean = defs.of(name)
+    if not clean:
+        return []
+    stop = set(i for _, ids in ds for i in ids) - {node}
+    after = [m for i in cfg.nodes_of(st) for m in cfg.succ[i] if (i, m) not in cfg.exc_edges]
+    fwd = cfg.reach(after, avoid=stop)
+    if node not in fwd:
+        return []
+    back = cfg.coreach([node], avoid=stop)
+    region = fwd & back
+    out, seen = [], set()
+    for b in sorted(region):
+        nd = cfg.nodes[b]
+        if nd.kind != 'branch' or id(nd.test) in seen:
+            continue
+        seen.add(id(nd.test))
+        for pol in (True, False):
+            bs = set(x for x in cfg.branch_nodes(nd.test, pol) if x in region)
+            nbs = [x for x in cfg.branch_nodes(nd.test, not pol) if x in fwd]
+            if not bs or node in bs:
+                continue
+            if node in cfg.reach(after, avoid=stop | bs) or node in cfg.reach(nbs, avoid=stop | bs):
+                continue
+            mid = (cfg.reach(list(bs), avoid=stop) & back) - {node} - bs
+            if cfg._kills(nd.test, mid):
+                continue
+            out.append((nd.test, pol))
+    return expand_conds(out)
+
+
 def refine_conds(cfg, defs, node, cs, fold, rounds=4):
     """Reaching-definition refinement of path conditions.
 
     For a condition ``v <op> e`` (== / != / is / is not, v a plain local) known with polarity p at ``node``: every
     definition ``v = val`` that may reach ``node`` and for which ``val <op> e`` is statically the opposite of p is
     ruled out (``canonical = url_path ... canonical == url_path`` is not False; ``mode = None ... mode == S_REDIRECT``
-    is not True).  If exactly one definition remains, the conditions under which that definition runs hold at
-    ``node`` too, and so does the comparison on its defining expression -- provided nothing in between re-binds a
-    name those expressions read."""
+    is not True) -- for every known condition on that local.  If exactly one definition remains, the conditions under
+    which that definition runs hold at ``node`` too, so do the outcomes of the branches between the definition and
+    ``node`` that every way takes, and so does each known comparison with the defining expression in place of the
+    local -- provided nothing in between re-binds a name those expressions read."""
     out = list(cs)
     known = set((norm(t), p) for t, p in out)
-    work = list(cs)
-    for _ in range(rounds):
-        new = []
-        for t, p in work:
+    ruled, done = {}, set()
+    for _ in range(rounds + 2):
+        comps = []
+        for t, p in out:
             t, p = strip_not(t, p)
             if not (isinstance(t, ast.Compare) and len(t.ops) == 1 and isinstance(t.ops[0], (ast.Eq, ast.NotEq, ast.Is, ast.IsNot))):
                 continue
-            sides = [(t.left, t.comparators[0], 'l'), (t.comparators[0], t.left, 'r')]
-            for side, other, which in sides:
-                if not isinstance(side, ast.Name):
+            for side, other, which in ((t.left, t.comparators[0], 'l'), (t.comparators[0], t.left, 'r')):
+                if isinstance(side, ast.Name):
+                    comps.append((t, p, side, other, which))
+        # what is known rules out definitions ...
+        for t, p, side, other, which in comps:
+            rd = defs.reaching(side.id, node)
+            if not rd:
+                continue
+            for st, val, mid in rd:
+                if cfg._kills(val, mid) or cfg._kills(other, mid):
                     continue
-                rd = defs.reaching(side.id, node)
-                if not rd:
-                    continue
-                keep = []
-                for st, val, mid in rd:
-                    o = _UNDECIDED
-                    if not cfg._kills(val, mid) and not cfg._kills(other, mid):
-                        o = _static_compare(val, other, t.ops[0], fold)
-                    if o is _UNDECIDED or o is p:
-                        keep.append((st, val, mid))
-                if len(keep) != 1:
-                    continue
-                st, val, mid = keep[0]
-                if not cfg._kills(val, mid):
-                    v2 = copy.deepcopy(val)
-                    sub = ast.Compare(left=v2 if which == 'l' else t.left, ops=[t.ops[0]],
-                                      comparators=[t.comparators[0] if which == 'l' else v2])
-                    ast.copy_location(sub, t)
-                    ast.fix_missing_locations(sub)
-                    new.append((sub, p))
-                for t2, p2 in cfg.conds_at_stmt(st):
-                    if not cfg._kills(t2, mid):
-                        new.append((t2, p2))
-        work = []
+                o = _static_compare(val, other, t.ops[0], fold)
+                if o is not _UNDECIDED and o is not p:
+                    ruled.setdefault(side.id, set()).add(id(st))
+        # ... and a local with a single definition left stands for that definition
+        new = []
+        for t, p, side, other, which in comps:
+            key = (norm(t), p, side.id, which)
+            if key in done:
+                continue
+            rd = defs.reaching(side.id, node)
+            if not rd:
+                continue
+            keep = [d for d in rd if id(d[0]) not in ruled.get(side.id, ())]
+            if len(keep) != 1:
+                continue
+            done.add(key)
+            st, val, mid = keep[0]
+            if not cfg._kills(val, mid):
+                v2 = copy.deepcopy(val)
+                sub = ast.Compare(left=v2 if which == 'l' else t.left, ops=[t.ops[0]],
+                                  comparators=[t.comparators[0] if which == 'l' else v2])
+                ast.copy_location(sub, t)
+                ast.fix_missing_locations(sub)
+                new.append((sub, p))
+            for t2, p2 in cfg.conds_at_stmt(st):
+                if not cfg._kills(t2, mid):
+                    new.append((t2, p2))
+            if len(rd) > 1:
+                new.extend(_between_conds(cfg, defs, side.id, st, node))
+        grew = False
         for t, p in new:
             k = (norm(t), p)
             if k not in known:
                 known.add(k)
                 out.append((t, p))
-                work.append((t, p))
-        if not work:
+                grew = True
+        if not grew:
             break
     return out
 
